@@ -159,6 +159,9 @@ def variants(spec: dict, tier: str) -> t.Iterator[t.Tuple[str, dict]]:
         for n in gen_ok:
             sp['nodes'][n]['generic'] = 'SharedBase'
         yield 'generic-shared-base', sp
+    inh = S.with_inheritance(spec)
+    if inh is not None:
+        yield 'class-inheritance', inh
     shared = S.share_switch_names(spec)
     if shared is not None:
         yield 'shared-named-switch', shared
